@@ -4,7 +4,7 @@ from __future__ import annotations
 import copy
 from typing import Any, Dict, List
 
-from . import from_tlc, gen_h1, gen_h2, gen_ws
+from . import from_tlc, gen_asgi, gen_h1, gen_h2, gen_ws
 
 COMMON_ASSUMPTIONS = [
     "h11/h2/wsproto/priority libraries behave as documented (their server roles are exercised, not re-verified)",
@@ -44,9 +44,14 @@ PROPS["C08"] = {"monitor": "C08", "generators": [gen_h2.gen_release, gen_h2.gen_
 PROPS["C09"] = {"monitor": "C09", "generators": [gen_h2.gen_flow, gen_h2.gen_release, gen_h2.gen_h2_basic]}
 PROPS["C10"] = {"monitor": "C10", "generators": [gen_ws.gen_c10]}
 PROPS["C11"] = {"monitor": "C11", "generators": [gen_ws.gen_c11]}
+PROPS["C12"] = {"monitor": "C12", "generators": [gen_asgi.gen_c12],
+                "design": [{"module": "Asgi", "cfg": "MC_Asgi.cfg"}]}
 PROPS["C17"] = {"monitor": "C17", "adapter": "c17",
                 "design": [{"module": "Wsgi", "cfg": "MC_Wsgi.cfg"}],
                 "technique": "TLA+ oracle (Wsgi.tla) model-checked by TLC + TLC validation of real executions of every enumerated case"}
+PROPS["C19"] = {"monitor": "C19", "adapter": "c19", "procs": 4, "batch": 400,
+                "design": [{"module": "Config", "cfg": "MC_Config.cfg"}],
+                "technique": "TLA+ oracle (Config.tla, tables transcribed from the documentation) model-checked by TLC + TLC validation of real executions of every enumerated case"}
 PROPS["C20"] = {"monitor": "C20", "adapter": "c20",
                 "design": [{"module": "Middleware", "cfg": "MC_Middleware.cfg"}],
                 "technique": "TLA+ oracle (Middleware.tla) model-checked by TLC + TLC validation of real executions of every enumerated case"}
